@@ -1,8 +1,9 @@
 (* C08 — FifoMapCache is safe under concurrent use.  PARTIAL: property theorems for every schedule of the
    interleaving model Model/CacheConc.v, the full statement, and its two refutations (known findings K1, K3). *)
 From Coq Require Import List Arith Bool.
-From TC.Model Require Import CacheConc.
-From TC.Proofs Require Import CacheConcBase CacheConcSafe CacheConcTicker CacheConcCap CacheConcRace.
+From TC.Model Require Cache.
+From TC.Model Require Import CacheConc CacheConcSeq.
+From TC.Proofs Require Import CacheConcBase CacheConcSafe CacheConcTicker CacheConcCap CacheConcRace CacheConcSeq.
 Import ListNotations.
 
 Section C08.
@@ -79,6 +80,35 @@ Section C08.
   Theorem C08_partial_race_free_core (c : config) (ls : list label) s :
     forallb (fun l => negb (@is_clear K V l)) ls = true -> run c init ls = Some s -> ~ race keqb zero c s.
   Proof. exact (cache_race_free keqb zero c ls s). Qed.
+  (* Sequential projection (ties this model to Model/Cache.v, the model of C01/C02/C03/C13, whose correspondence
+     with the Go code is checked by those properties' harness): on a state with no call in flight ([WF], locks
+     free, current stack well-formed = [Q]), spawning ANY operation and letting its goroutine run alone to
+     completion ([solo]: m consecutive steps of that goroutine) is exactly the step of the sequential cache model
+     under the abstraction [absf], returns what the sequential model observes, and re-establishes [WF] and [Q]
+     (a `go f.Sweep()` spawned on the way stays pending, as in Cache.v where Sweep is a label of its own).
+     Configuration: after F15 and with Delete's fix F1, as in Cache.v. *)
+  Theorem C08_seq_projection_call (c : config) (s : @CacheConc.state K V) o l :
+    recheck c = true -> delidx c = true ->
+    WF s -> Q s -> lab o = Some l ->
+    exists m s' r, run c s (LSpawn o :: solo (length (threads s)) m) = Some s'
+                   /\ nth_error (threads s') (length (threads s)) = Some (o, PDone r)
+                   /\ absf c s' = fst (Cache.step keqb (absf c s) l)
+                   /\ res_matches zero o r (snd (Cache.step keqb (absf c s) l))
+                   /\ WF s' /\ Q s'.
+  Proof. intros Hre Hdel. exact (seq_call keqb zero keqb_spec c Hre Hdel s o l). Qed.
+
+  (* ... hence every sequential history of Set/Get/Contains/Delete/Sweep/Clear calls is a schedule of the concurrent
+     model, ending in the state the sequential model computes *)
+  Theorem C08_seq_projection_history (c : config) (ops : list op) (h : list (@Cache.label K V)) :
+    recheck c = true -> delidx c = true ->
+    Forall2 (fun o l => lab o = Some l) ops h ->
+    exists ls s', run c init ls = Some s'
+                  /\ absf c s' = Cache.run keqb (Cache.init (maxP c) (capC c)) h /\ WF s' /\ Q s'.
+  Proof.
+    intros Hre Hdel Hf.
+    destruct (seq_history keqb zero keqb_spec c Hre Hdel h ops Hf init (WF_init) (Q_init)) as (ls & s' & H1 & H2 & H3).
+    exists ls, s'. split; [exact H1|]. split; [exact H2|exact H3].
+  Qed.
 End C08.
 
 (* ------------------------------------------------------------------------------------------------------------
@@ -190,6 +220,8 @@ Print Assumptions C08_partial_get_was_set.
 Print Assumptions C08_partial_sweeper_stops.
 Print Assumptions C08_partial_within_capacity.
 Print Assumptions C08_partial_race_free_core.
+Print Assumptions C08_seq_projection_call.
+Print Assumptions C08_seq_projection_history.
 Print Assumptions C08_duplicate_key_refuted.
 Print Assumptions C08_race_refuted.
 Print Assumptions C08_full_statement_refuted.
